@@ -29,7 +29,8 @@ MANIFEST = dict(
     text='Decides that every vm_* parser issues exactly the reads block.tlb prescribes for each constructor and length pattern, that the serialiser\'s output for every value kind, every integer boundary of the '
          '64/257-bit forms, tuples of length 0..4 (nested) and every continuation kind is a VmStack per the schema (decoded exactly), that parsing it back returns equal values in order, and that serialising '
          'leaves the caller\'s list and tuples untouched (second serialisation identical).'
-         ' Loop continuations constructed with their keywords in another order than the scheme serialise in scheme order.',
+         ' Loop continuations constructed with their keywords in another order than the scheme serialise in scheme order.'
+         ' Slices that hold references only round-trip; a refused serialisation leaves nothing behind for the stacks serialised afterwards.',
     note='trusted: interpreter, TL-B lowering and decoder, bitarray model. Not decided: stacks deeper / tuples longer than the enumerated patterns (the code is uniform in n; the n, n+1, n+2 patterns cover every branch).',
     design_ref='DESIGN.md section 4 C17')
 
